@@ -355,7 +355,9 @@ def _work_inner(chunk_id, names, known_names, out):
             k = 1
             if f["apx"] or name not in known_names:
                 k = 0           # the assembler does not know the mnemonic / APX: only the default request
-            pairs = tier == "thorough" and f["idx"] in _G["pair_forms"]
+            # pairs of deviations: thorough - one representative form per encoder path; quick - every form of the mnemonics whose
+            # encoder case has operand-pair shortcuts (mov: accumulator + absolute address -> moffs forms)
+            pairs = (tier == "thorough" and f["idx"] in _G["pair_forms"]) or name in QUICK_PAIR_NAMES
             n0 = len(cases)
             for mode in f["modes"]:
                 for c in X.instantiate(f, mode, k=k, pairs=pairs):
@@ -412,6 +414,9 @@ def known_mnemonics(exe, names, workdir):
         if r is not None and r[1] != "E_NAME":
             known.add(n)
     return known
+
+
+QUICK_PAIR_NAMES = {"mov", "movabs", "xchg", "test"}
 
 
 def pick_pair_forms(forms, known):
